@@ -314,7 +314,7 @@ fn worker<P: Prop>(tier: Tier, seed: u64, shard: usize, shards: usize, cases: u3
         for l in &out.labels {
             *stats.part.labels.entry((*l).to_string()).or_default() += 1;
         }
-        if out.nontrivial && !out.excluded {
+        if out.nontrivial {
             let fp = fingerprint(case);
             if stats.nontrivial.insert(fp) && stats.part.samples.len() < 3 {
                 stats.part.samples.push(serde_json::to_value(case).unwrap());
